@@ -61,11 +61,18 @@ BadEscapes == << <<cBSLASH, 117, 100, 56, 51, 100, cBSLASH, 117, 101, 48, 48, 48
                 <<cBSLASH, 117, 100, 56, 51, 100, cBSLASH, 117, 100, 56, 51, 100>>, <<cBSLASH, 117, 100, 56, 51, 100, cBSLASH, 117, 48, 48, 52, 49>>,
                 <<cBSLASH, 117, 100, 99, 48, 48>>, <<cBSLASH, 117, 100, 56, 51, 100>>, <<cBSLASH, 117, 48, 48, 52>>, <<cBSLASH, 117, 48, 48, 103, 49>>,
                 <<cBSLASH, 117, 100, 56, 51, 100, 97>>, <<cBSLASH, 117, 100, 56, 51, 100, cBSLASH, 110>>, <<cBSLASH, 85, 48, 48, 52, 49>> >>
+RECURSIVE RepSeq(_, _), NestArr(_)
+RepSeq(s, n) == IF n = 0 THEN <<>> ELSE s \o RepSeq(s, n - 1)
+NestArr(n) == IF n = 0 THEN JArr(<<>>) ELSE JArr(<<NestArr(n - 1)>>)
+DeepLitCases(zzdummy) ==
+  [i \in 1..3 |-> LET d == <<64, 127, 128>>[i] IN
+     \* observed through length(..) so that no deeply nested value has to travel through the interchange files
+     [e |-> "lexval", kind |-> "lit", text |-> <<108, 101, 110, 103, 116, 104, 40, cBTICK>> \o RepSeq(<<91>>, d) \o RepSeq(<<93>>, d) \o <<cBTICK, 41>>, doc |-> JNull, want |-> JInt(1)]]
 BadEscapeCases(zzdummy) ==
   [i \in DOMAIN BadEscapes |-> [e |-> "lexval", kind |-> "bad", text |-> <<cDQUOTE, 97>> \o BadEscapes[i] \o <<cDQUOTE>>, doc |-> JNull, want |-> JNull]]
   \o [i \in DOMAIN BadEscapes |-> [e |-> "lexval", kind |-> "bad", text |-> <<cBTICK, cDQUOTE>> \o BadEscapes[i] \o <<cDQUOTE, cBTICK>>, doc |-> JNull, want |-> JNull]]
 
-EnumCases(zzdummy) == LET all == SetToSeq(UNION {[1..n -> Alpha] : n \in 0..N}) IN Flat([i \in DOMAIN all |-> CasesOf(all[i])]) \o UidCases(0) \o ScalarCases(0) \o BadEscapeCases(0)
+EnumCases(zzdummy) == LET all == SetToSeq(UNION {[1..n -> Alpha] : n \in 0..N}) IN Flat([i \in DOMAIN all |-> CasesOf(all[i])]) \o UidCases(0) \o ScalarCases(0) \o BadEscapeCases(0) \o DeepLitCases(0)
 SpellCases(zzdummy) == LET ps == ndJsonDeserialize(IOEnv.IN) IN Flat([i \in DOMAIN ps |-> CasesOf(ps[i].s)])
 
 ASSUME ndJsonSerialize(IOEnv.OUT, IF IOEnv.MODE = "enum" THEN EnumCases(0) ELSE SpellCases(0))
